@@ -505,12 +505,16 @@ class ExcelInPython:
             case year if year < 0 or year > 9999:
                 return '#NUM!'
 
-        result_date = datetime.datetime(year, 1, 1)
+        try:
+            result_date = datetime.datetime(year, 1, 1)
 
-        result_date += relativedelta(months=month - 1)
+            result_date += relativedelta(months=month - 1)
 
-        # day 1 is the first day of that month; zero, negative and overflowing days simply count from there
-        result_date += datetime.timedelta(days=day - 1)
+            # day 1 is the first day of that month; zero, negative and overflowing days simply count from there
+            result_date += datetime.timedelta(days=day - 1)
+        except (ValueError, OverflowError):
+            # months or days that carry the date past the last (or before the first) day a cell can hold: DATE(9999,13,1)
+            return '#NUM!'
 
         return result_date
 
